@@ -375,6 +375,10 @@ func (h *hreq) toVerif() *gocql.VerifRequest {
 		for _, e := range h.payload {
 			r.CustomPayload[string(e.k)] = e.v
 		}
+	} else if emptyNonNil(h) {
+		// an empty but non-nil map is the same logical request as no payload (nothing to send, flag clear);
+		// which of the two Go values is used is a deterministic function of the op line, so replays agree
+		r.CustomPayload = map[string][]byte{}
 	}
 	switch h.kind {
 	case "startup":
@@ -479,6 +483,14 @@ func mapOrder(h *hreq, frame []byte) (keys [][]byte, ok bool) {
 		}
 	}
 	return keys, true
+}
+
+func emptyNonNil(h *hreq) bool {
+	x := uint32(2166136261)
+	for _, c := range []byte(h.String()) {
+		x = (x ^ uint32(c)) * 16777619
+	}
+	return x%2 == 0
 }
 
 func (h *hreq) theMap() *[]kv {
